@@ -1010,8 +1010,11 @@ std::ostream& expression_t::print_bound_type(std::ostream& os, expression_t e) c
     if (e.get_kind() == CONSTANT) {
         assert(e.get_type().is(Constants::INT));  // Encoding used here.
 
+        // 0 and 1 encode the step and the time bound; any other constant was written as the bounded expression
         if (e.get_value() == 0) {
             os << "#";
+        } else if (e.get_value() != 1) {
+            e.print(os, false);
         }
     } else if (get_precedence(LE) >= e.get_precedence()) {
         e.print(os << '(', false) << ')';
@@ -1588,13 +1591,7 @@ std::ostream& expression_t::print(std::ostream& os, bool old) const
         os << "minE(";
         get(3).print(os, old);
         os << ")[";
-        if (get(0).get_kind() == Constants::CONSTANT) {
-            if (bool is_step_bound = (get(0).get_value() == 0))
-                os << "#";
-        } else {
-            get(0).print(os, old);
-        }
-        os << "<=";
+        print_bound_type(os, get(0));
         get(1).print(os, old);
         os << "]";
         if (auto features1 = get(5); features1.get_kind() == Constants::LIST) {
@@ -1612,13 +1609,7 @@ std::ostream& expression_t::print(std::ostream& os, bool old) const
         os << "maxE(";
         get(3).print(os, old);
         os << ")[";
-        if (get(0).get_kind() == Constants::CONSTANT) {
-            if (bool is_step_bound = (get(0).get_value() == 0))
-                os << "#";
-        } else {
-            get(0).print(os, old);
-        }
-        os << "<=";
+        print_bound_type(os, get(0));
         get(1).print(os, old);
         os << "]";
         if (auto features1 = get(5); features1.get_kind() == Constants::LIST) {
